@@ -281,17 +281,17 @@ func (s *Sched) Run() {
 		s.mu.Lock()
 		en := s.enabledLocked()
 		if len(en) == 0 {
-			if s.allDoneLocked() {
-				s.mu.Unlock()
-				return
-			}
+			done := s.allDoneLocked()
 			s.mu.Unlock()
 			if idle < s.MaxIdle {
+				// nothing can run: let virtual time pass (timers, sleeps) and look again
 				idle++
 				time.Sleep(s.IdleStep)
 				continue
 			}
-			s.Deadlock = true
+			if !done {
+				s.Deadlock = true
+			}
 			return
 		}
 		idle = 0
